@@ -482,13 +482,16 @@ class Vh:
             raise VhError(r.get("err") or "error")
         return r["r"]
 
-    def _readline(self, req: Any, timeout: float = 120.0) -> str:
+    def _readline(self, req: Any, timeout: float = 300.0) -> str:
         import select
         assert self.p.stdout
         r, _, _ = select.select([self.p.stdout], [], [], timeout)
         if not r:
             self.p.kill()
-            raise VhTimeout(f"vh did not answer within {timeout}s: {json.dumps(req)[:300]}")
+            # every request is served in milliseconds to a few seconds on the unchanged tree; five minutes without an answer means
+            # the code under test (or the harness loop that waits for it to finish) does not terminate on an in-scope request: like
+            # a panic, the operation the property talks about produced no result
+            raise ImplCrash("rs", f"hang:{req.get('cmd') if isinstance(req, dict) else '?'}", f"no answer within {timeout:.0f}s: {json.dumps(req)[:300]}", "", self.recent[-600:])
         return self.p.stdout.readline()
 
     def batch(self, reqs: List[Dict[str, Any]]) -> List[Dict[str, Any]]:
